@@ -79,12 +79,5 @@ void CompositeAction::onReset() {
     SerialAssembleAction::onReset();
 }
 
-void CompositeAction::onFinished(bool is_succ, const Reason &why, const Trace &trace) {
-    //! 有可能不是child_自然结束产生的finish
-    stopCurrAction();
-
-    SerialAssembleAction::onFinished(is_succ, why, trace);
-}
-
 }
 }
